@@ -78,8 +78,63 @@ def scenarios(ctx):
     return cyc, acy
 
 
+HASH_SCRIPT = '''
+import json, itertools
+from mpilot.program import Program
+from mpilot.commands import Command
+from mpilot import params
+from mpilot.exceptions import MPilotError
+
+
+class N(Command):
+    inputs = {"One": params.ResultParameter(required=False), "Many": params.ListParameter(params.ResultParameter(), required=False)}
+
+    def execute(self, **kw):
+        for v in kw.values():
+            for c in (v if isinstance(v, list) else [v]):
+                c.result
+        return 1
+
+MODELS = [
+    ["X = N(One = A)", "A = N(One = B)", "B = N(One = A)", "Y = N(One = X)"],
+    ["T = N(Many = [A, Q])", "Q = N()", "A = N(One = B)", "B = N(One = C)", "C = N(Many = [Q, A])", "U = N(One = T)"],
+    ["Lead = N(One = Self)", "Self = N(One = Self)", "Top = N(Many = [Lead, Other])", "Other = N()"],
+    ["P = N(One = Q)", "Q = N(One = R)", "R = N(Many = [S, P])", "S = N()", "W = N(One = P)", "V = N(Many = [W, S])"],
+]
+out = []
+for lines in MODELS:
+    for perm in list(itertools.permutations(lines))[:24]:
+        src = chr(10).join(perm) + chr(10)
+        try:
+            Program.from_source(src, libraries=("__main__",)).run()
+            out.append([src, "ok"])
+        except MPilotError as e:
+            out.append([src, type(e).__name__])
+        except BaseException as e:
+            out.append([src, "raw " + type(e).__name__])
+print(json.dumps(out))
+'''
+
+
+def hash_seeds(ctx):
+    """small cyclic models - a loop with commands outside it that lead into it and are themselves referenced - in 24 file orders each, under eight hash seeds
+    (fresh interpreters): rejected with the recursive-model error every time, whatever order a set of names is walked in"""
+    for sd, val, err in common.hash_sweep(HASH_SCRIPT):
+        ctx.count("hash_seed_runs")
+        ctx.case("hash-seed %d" % sd, sample=None)
+        if val is None:
+            ctx.fail("running cyclic models under PYTHONHASHSEED=%d crashed: %s" % (sd, err[-200:]), {"hash_seed": sd})
+            continue
+        bad = [x for x in val if x[1] != "RecursiveModelStructure"]
+        ctx.count("hash_seed_cyclic_models", len(val))
+        if bad:
+            ctx.fail("under PYTHONHASHSEED=%d a cyclic model ends with %s instead of the recursive-model error (%d of %d models / orders)" % (sd, bad[0][1], len(bad), len(val)),
+                     {"hash_seed": sd, "source": bad[0][0]})
+
+
 def run(ctx):
     ctx.check_proofs(["MPilot.Props.C14"])
+    hash_seeds(ctx)
     model = common.Model()
     cyc, acy = scenarios(ctx)
     classes = decl_classes()
